@@ -116,6 +116,14 @@ def run_sharded(module, cfg, cases, shards=None, env=None, env_key="CASES", time
     if not cases:
         return []
     shards = max(1, min(shards or NCPU, len(cases)))
+    if "heap" not in kw or not kw["heap"]:
+        # the JVM's default maximum heap is a quarter of the machine's memory PER PROCESS: sixteen processes that each postpone their
+        # collections until then exhaust it (the kernel then kills one: rc -9).  Share what is available now among the shards.
+        try:
+            avail_kb = next(int(l.split()[1]) for l in open("/proc/meminfo") if l.startswith("MemAvailable:"))
+            kw["heap"] = "%dm" % max(1500, int(0.7 * avail_kb / 1024 / shards))
+        except Exception:
+            pass
     tmp = tempfile.mkdtemp(prefix="cases_")
     try:
         paths = []
